@@ -142,27 +142,27 @@ theorem step_spec (pal : List Colour) (hpal : pal ≠ []) (s : CState) (hs : Inv
       obtain ⟨i, hi⟩ := armFor_of_action arm_FFF
       obtain ⟨c, hc⟩ := getNextColor_ok pal hpal 0 none
       refine ⟨c, ?_⟩
-      simp [getColor, hs, lookup_nil, hi, hc]
+      simp [getColor, prevColour, hs, lookup_nil, hi, hc]
     | some p =>
       rw [hp] at hs
       obtain ⟨cp, hcp⟩ := hs
       by_cases hpk : p = k
       · subst hpk
         obtain ⟨i, hi⟩ := armFor_of_action arm_TTT
-        exact ⟨cp, by simp [getColor, hcp, hi]⟩
+        exact ⟨cp, by simp [getColor, prevColour, hcp, hi]⟩
       · have hne : ¬ (some p = some k) := fun e => hpk (Option.some.inj e)
         cases hk : lookup s.map k with
         | none =>
           obtain ⟨i, hi⟩ := armFor_of_action arm_FTF
           obtain ⟨c, hc⟩ := getNextColor_ok pal hpal s.map.length (some cp)
-          exact ⟨c, by simp [getColor, hcp, hk, hpk, hi, hc]⟩
+          exact ⟨c, by simp [getColor, prevColour, hcp, hk, hpk, hi, hc]⟩
         | some ck =>
           obtain ⟨i, hi⟩ := armFor_of_action arm_TTF
           by_cases hcol : ck = cp
           · subst hcol
             obtain ⟨c, hc⟩ := getNextColor_ok pal hpal s.map.length (some ck)
-            exact ⟨c, by simp [getColor, hcp, hk, hpk, hi, hc]⟩
-          · exact ⟨ck, by simp [getColor, hcp, hk, hpk, hi, hcol]⟩
+            exact ⟨c, by simp [getColor, prevColour, hcp, hk, hpk, hi, hc]⟩
+          · exact ⟨ck, by simp [getColor, prevColour, hcp, hk, hpk, hi, hcol]⟩
   obtain ⟨c, hc⟩ := key
   exact ⟨c, by simp [step, hc], hc⟩
 
@@ -174,7 +174,7 @@ theorem inv_after (m : KeyMap) (k : Key) (c : Colour) :
 theorem getColor_repeat (pal : List Colour) (m : KeyMap) (k : Key) (ck : Colour)
     (hk : lookup m k = some ck) : getColor pal m k (some k) true = .ok ck := by
   obtain ⟨i, hi⟩ := armFor_of_action arm_TTT
-  simp [getColor, hk, hi]
+  simp [getColor, prevColour, hk, hi]
 
 /-- A key different from the previous one never gets the previous key's colour
 (palette of two or more pairwise distinct entries). -/
@@ -184,15 +184,15 @@ theorem getColor_differs (pal : List Colour) (hd : pal.Nodup) (h2 : 2 ≤ pal.le
   cases hk : lookup m k with
   | none =>
     obtain ⟨i, hi⟩ := armFor_of_action arm_FTF
-    simp [getColor, hcp, hk, hi] at h
+    simp [getColor, prevColour, hcp, hk, hi] at h
     exact getNextColor_ne pal hd h2 _ _ _ h
   | some ck =>
     obtain ⟨i, hi⟩ := armFor_of_action arm_TTF
     by_cases hcol : ck = cp
     · subst hcol
-      simp [getColor, hcp, hk, hi] at h
+      simp [getColor, prevColour, hcp, hk, hi] at h
       exact getNextColor_ne pal hd h2 _ _ _ h
-    · simp [getColor, hcp, hk, hi, hcol] at h
+    · simp [getColor, prevColour, hcp, hk, hi, hcol] at h
       rw [← h]; exact hcol
 
 /-- A key seen before keeps its colour if that differs from the colour of the line above. -/
@@ -200,7 +200,7 @@ theorem getColor_stable (pal : List Colour) (m : KeyMap) (p k : Key) (cp ck : Co
     (hcp : lookup m p = some cp) (hk : lookup m k = some ck) (hne : ck ≠ cp) :
     getColor pal m k (some p) false = .ok ck := by
   obtain ⟨i, hi⟩ := armFor_of_action arm_TTF
-  simp [getColor, hcp, hk, hi, hne]
+  simp [getColor, prevColour, hcp, hk, hi, hne]
 
 /-! ### runs -/
 
@@ -305,6 +305,85 @@ theorem run_two_at (pal : List Colour) (hpal : pal ≠ []) (pre : List Key) (x y
     ?_, rfl, rfl, rfl, hg⟩
   rw [plain_append, run_append, h1]
   simp only [hrun]
+
+/-! ### streams that mix lines coloured by git with uncoloured ones -/
+
+/-- The arm chosen for a combination exists, is not `delta_unreachable`, and only uses what its
+pattern binds. -/
+def armOk (t p r : Bool) : Bool :=
+  match armFor Generated.Blame.getColorArms 0 t p r with
+  | some (_, 0) => t
+  | some (_, 1) => p
+  | some (_, 2) => true
+  | some (_, 3) => t && p
+  | _ => false
+
+/-- The `get_color` match has no `delta_unreachable` arm left (all eight combinations). -/
+def armsTotal : Bool :=
+  armOk false false false && armOk false false true && armOk false true false && armOk false true true &&
+  armOk true false false && armOk true false true && armOk true true false && armOk true true true
+
+theorem armOk_all (h : armsTotal = true) (t p r : Bool) : armOk t p r = true := by
+  simp only [armsTotal, Bool.and_eq_true] at h
+  obtain ⟨⟨⟨⟨⟨⟨⟨h0, h1⟩, h2⟩, h3⟩, h4⟩, h5⟩, h6⟩, h7⟩ := h
+  cases t <;> cases p <;> cases r <;> assumption
+
+theorem getColor_total (h : armsTotal = true) (pal : List Colour) (hpal : pal ≠ []) (m : KeyMap)
+    (key : Key) (prev : Option Key) (rep : Bool) : ∃ c, getColor pal m key prev rep = .ok c := by
+  unfold getColor
+  generalize lookup m key = kc
+  generalize prevColour m prev = pc
+  have hok := armOk_all h kc.isSome pc.isSome rep
+  unfold armOk at hok
+  cases harm : armFor Generated.Blame.getColorArms 0 kc.isSome pc.isSome rep with
+  | none => simp [harm] at hok
+  | some ia =>
+    obtain ⟨i, act⟩ := ia
+    simp only [harm] at hok ⊢
+    match act, hok with
+    | 0, hok =>
+      cases kc with
+      | none => simp at hok
+      | some k => exact ⟨k, rfl⟩
+    | 1, hok =>
+      cases pc with
+      | none => simp at hok
+      | some p =>
+        obtain ⟨c, hc⟩ := getNextColor_ok pal hpal m.length (some p)
+        exact ⟨c, by simp [hc]⟩
+    | 2, _ =>
+      obtain ⟨c, hc⟩ := getNextColor_ok pal hpal m.length none
+      exact ⟨c, by simp [hc]⟩
+    | 3, hok =>
+      cases kc with
+      | none => simp at hok
+      | some k =>
+        cases pc with
+        | none => simp at hok
+        | some p =>
+          by_cases hkp : k = p
+          · subst hkp
+            obtain ⟨c, hc⟩ := getNextColor_ok pal hpal m.length (some k)
+            exact ⟨c, by simp [hc]⟩
+          · exact ⟨k, by simp [hkp]⟩
+    | n + 4, hok => simp at hok
+
+/-- With a total `get_color`, no stream — whatever mix of lines coloured by git — can fail. -/
+theorem run_total_of_armsTotal (h : armsTotal = true) (pal : List Colour) (hpal : pal ≠ [])
+    (hist : List (Key × Bool)) (s : CState) :
+    ∃ s' ps, run pal s hist = .ok (s', ps) ∧ ps.length = hist.length := by
+  induction hist generalizing s with
+  | nil => exact ⟨s, [], rfl, rfl⟩
+  | cons kg rest ih =>
+    obtain ⟨k, g⟩ := kg
+    cases g with
+    | true =>
+      obtain ⟨s', ps, hr, hl⟩ := ih { s with prev := some k }
+      exact ⟨s', ⟨none, decide (s.prev = some k)⟩ :: ps, by simp [run, step, hr], by simp [hl]⟩
+    | false =>
+      obtain ⟨c, hc⟩ := getColor_total h pal hpal s.map k s.prev (decide (s.prev = some k))
+      obtain ⟨s', ps, hr, hl⟩ := ih { map := insert s.map k c, prev := some k }
+      exact ⟨s', ⟨some c, decide (s.prev = some k)⟩ :: ps, by simp [run, step, hc, hr], by simp [hl]⟩
 
 theorem getElem?_append_cons_cons {α} (l1 : List α) (a b : α) (l2 : List α) :
     (l1 ++ a :: b :: l2)[l1.length]? = some a ∧ (l1 ++ a :: b :: l2)[l1.length + 1]? = some b := by
